@@ -393,10 +393,6 @@ impl<'de, R: Read<'de>> Parser<R> {
         self.read.next()
     }
 
-    fn next_char_or_null(&mut self) -> Result<u8> {
-        Ok(self.next_char()?.unwrap_or(b'\x00'))
-    }
-
     /// Error caused by a byte from next_char().
     fn error(&mut self, reason: ErrorCode) -> Error {
         let pos = self.read.position();
@@ -1076,12 +1072,13 @@ impl<'de, R: Read<'de>> Parser<R> {
         match self.peek_or_null()? {
             b'#' => {
                 self.eat_char();
-                match self.next_char_or_null()? {
-                    b'b' => self.parse_radix_literal(2),
-                    b'o' => self.parse_radix_literal(8),
-                    b'd' => self.parse_radix_literal(10),
-                    b'x' => self.parse_radix_literal(16),
-                    _ => Err(self.peek_error(ErrorCode::InvalidNumber)),
+                match self.next_char()? {
+                    Some(b'b') => self.parse_radix_literal(2),
+                    Some(b'o') => self.parse_radix_literal(8),
+                    Some(b'd') => self.parse_radix_literal(10),
+                    Some(b'x') => self.parse_radix_literal(16),
+                    Some(_) => Err(self.peek_error(ErrorCode::InvalidNumber)),
+                    None => Err(self.peek_error(ErrorCode::EofWhileParsingValue)),
                 }
             }
             _ => self.parse_radix_literal(10),
